@@ -9,8 +9,10 @@ import DrxProofs.Vwsc
 namespace Drx.Vwsc
 open Drx Drx.Vwsc.Spec Drx.VwscLayout
 
-theorem encS2_pair (v : Int) : ∃ a b, encS .be 2 v = [a, b] := ⟨_, _, by simp [encS, encOrd, encBE]⟩
-theorem encU16_pair (n : Nat) : ∃ a b, encU16 n = [a, b] := ⟨_, _, by simp [encU16, encOrd, encBE]⟩
+theorem encS2_pair (v : Int) : ∃ a b, encS .be 2 v = [a, b] :=
+  ⟨UInt8.ofNat (ofSigned 16 v / 256 % 256), UInt8.ofNat (ofSigned 16 v % 256), by simp [encS, encOrd, encBE]⟩
+theorem encU16_pair (n : Nat) : ∃ a b, encU16 n = [a, b] :=
+  ⟨UInt8.ofNat (n / 256 % 256), UInt8.ofNat (n % 256), by simp [encU16, encOrd, encBE]⟩
 
 theorem unpack_pair {v : Int} {a b : UInt8} (e : encS .be 2 v = [a, b]) (h : In16 v) : unpackS .be 2 [a, b] = .ok v := by
   rw [← e]; exact unpackS_encS .be 2 (by decide) v (in16_b h).1 (in16_b h).2
@@ -23,6 +25,23 @@ theorem toSigned16_mod (n : Nat) (h : n < 65536) : toSigned 16 n % 65536 = (n : 
   unfold toSigned
   split <;> omega
 
+set_option maxRecDepth 8000 in
+theorem d4ReadSprite_bytes (a0 b0 fg bg flags ink a1 b1 a2 b2 a3 b3 a4 b4 a5 b5 a6 b6 a7 b7 : UInt8) (v0 v1 v2 v3 v4 v5 v6 v7 : Int)
+    (u0 : unpackS .be 2 [a0, b0] = .ok v0) (u1 : unpackS .be 2 [a1, b1] = .ok v1) (u2 : unpackS .be 2 [a2, b2] = .ok v2)
+    (u3 : unpackS .be 2 [a3, b3] = .ok v3) (u4 : unpackS .be 2 [a4, b4] = .ok v4) (u5 : unpackS .be 2 [a5, b5] = .ok v5)
+    (u6 : unpackS .be 2 [a6, b6] = .ok v6) (u7 : unpackS .be 2 [a7, b7] = .ok v7) :
+    d4ReadSprite [a0, b0, fg, bg, flags, ink, a1, b1, a2, b2, a3, b3, a4, b4, a5, b5, a6, b6, a7, b7]
+      = .ok (if v1 > 0 then
+          some ⟨v0, v1, b2i fg, b2i bg, b2i ink % 64, some (b2i flags), v2, v3, v4, v5, b2i ink / 64 % 2,
+                v7 % 65536 / 32768 % 2 ≠ 0, v7 % 65536 / 16384 % 2 ≠ 0⟩
+        else none) := by
+  simp [d4ReadSprite, checkAll, Gen.Score.d4Sprite, Gen.Score.d4Sprite_spriteType, Gen.Score.d4Sprite_foregroundColor,
+    Gen.Score.d4Sprite_backgroundColor, Gen.Score.d4Sprite_flags, Gen.Score.d4Sprite_ink_byte, Gen.Score.d4Sprite_castId,
+    Gen.Score.d4Sprite_y, Gen.Score.d4Sprite_x, Gen.Score.d4Sprite_height, Gen.Score.d4Sprite_width, Gen.Score.d4Sprite_flag1,
+    Gen.Score.d4Sprite_flag2, Fld.int, Fld.raw, getS, slice, byteAt, u0, u1, u2, u3, u4, u5, u6, u7, bind, Except.bind,
+    Except.map, b2i, pure, Except.pure]
+  split <;> rfl
+
 theorem d4ReadSprite_enc (s : RawSpriteD4) (h : s.Valid) : d4ReadSprite (encSpriteD4 s) = .ok (viewSpriteD4 s) := by
   obtain ⟨h0, h1, h2, h3, h4, h5, h6, h7⟩ := h
   obtain ⟨a0, b0, e0⟩ := encS2_pair s.spriteType
@@ -33,20 +52,9 @@ theorem d4ReadSprite_enc (s : RawSpriteD4) (h : s.Valid) : d4ReadSprite (encSpri
   obtain ⟨a5, b5, e5⟩ := encS2_pair s.width
   obtain ⟨a6, b6, e6⟩ := encU16_pair s.flag1
   obtain ⟨a7, b7, e7⟩ := encU16_pair s.flag2
-  have u0 := unpack_pair e0 h0
-  have u1 := unpack_pair e1 h1
-  have u2 := unpack_pair e2 h2
-  have u3 := unpack_pair e3 h3
-  have u4 := unpack_pair e4 h4
-  have u5 := unpack_pair e5 h5
-  have u6 := unpack_pairU e6 h6
-  have u7 := unpack_pairU e7 h7
-  have m7 := toSigned16_mod s.flag2 h7
   simp only [encSpriteD4, e0, e1, e2, e3, e4, e5, e6, e7, List.cons_append, List.nil_append]
-  simp [d4ReadSprite, checkAll, Gen.Score.d4Sprite, Gen.Score.d4Sprite_spriteType, Gen.Score.d4Sprite_foregroundColor,
-    Gen.Score.d4Sprite_backgroundColor, Gen.Score.d4Sprite_flags, Gen.Score.d4Sprite_ink_byte, Gen.Score.d4Sprite_castId,
-    Gen.Score.d4Sprite_y, Gen.Score.d4Sprite_x, Gen.Score.d4Sprite_height, Gen.Score.d4Sprite_width, Gen.Score.d4Sprite_flag1,
-    Gen.Score.d4Sprite_flag2, Fld.int, Fld.raw, getS, slice, byteAt, u0, u1, u2, u3, u4, u5, u6, u7, m7, bind, Except.bind,
-    Except.map, Functor.map, viewSpriteD4, b2i, pure, Except.pure]
+  rw [d4ReadSprite_bytes _ _ _ _ _ _ _ _ _ _ _ _ _ _ _ _ _ _ _ _ _ _ _ _ _ _ _ _ (unpack_pair e0 h0) (unpack_pair e1 h1) (unpack_pair e2 h2)
+    (unpack_pair e3 h3) (unpack_pair e4 h4) (unpack_pair e5 h5) (unpack_pairU e6 h6) (unpack_pairU e7 h7)]
+  simp only [viewSpriteD4, toSigned16_mod s.flag2 h7]
 
 end Drx.Vwsc
